@@ -1,6 +1,7 @@
 #![allow(dead_code, unused_variables, unused_assignments, unused_imports)]
 mod c13;
 mod c17;
+mod codec;
 mod crypto;
 mod gen;
 mod interpose;
@@ -17,6 +18,9 @@ mod types;
 mod world;
 
 use std::collections::BTreeMap;
+
+#[global_allocator]
+static GLOBAL: codec::Counting = codec::Counting;
 
 use runner::*;
 use types::*;
